@@ -334,15 +334,20 @@ def run(task, ctx):
     seen = {}
     frontier = [()]
     table = {}
+    executed = []               # distinct fit / path operations this worker process has already run (process-global state, e.g. compile caches)
     for d in range(depth):
         nxt = []
         for hist in frontier:
             for op in ops:
                 h2 = hist + (op,)
+                prelude = [list(o) for o in executed]
                 outcomes, canon = play(g, h2)
+                for o in h2:
+                    if o[0] != "set" and o not in executed:
+                        executed.append(o)
                 ctx.transitions += 1
                 rec = outcomes[-1]
-                params = dict(op="hist", group=g, history=[list(o) for o in h2])
+                params = dict(op="hist", group=g, history=[list(o) for o in h2], prelude=prelude)
                 if rec["kind"] != "set":
                     if not rec["inputs_untouched"]:
                         ctx.violation(f"estimator:{rec['est']}.{rec['kind']}", "input_modified", params, "bytes changed", "unchanged",
@@ -385,6 +390,23 @@ def post(agg, ctx):
                           where=dict(estimator=est, data=k.split("|")[-1], status=v["val"]["status"]))
 
 
+def fresh_process_play(g, hist):
+    """play(g, hist) in a new interpreter (same repository, same seed); returns the per-op outcomes."""
+    import os
+    import subprocess
+    import sys
+    root = os.path.dirname(os.path.dirname(os.path.dirname(os.path.abspath(__file__))))
+    code = ("import sys, json, warnings; warnings.simplefilter('ignore'); sys.path.insert(0, %r); sys.path.insert(0, %r); "
+            "from mc import worker; worker._install_shim(); from mc.drivers import c18; "
+            "out, _ = c18.play(%r, [tuple(o) for o in json.loads(%r)]); print('@@' + json.dumps(out, default=str))"
+            % (os.environ.get("VERIF_REPO", "/repo"), root, g, json.dumps([list(o) for o in hist])))
+    r = subprocess.run([sys.executable, "-c", code], capture_output=True, text=True, timeout=900)
+    line = [ln for ln in r.stdout.splitlines() if ln.startswith("@@")]
+    if not line:
+        raise RuntimeError("fresh process failed: " + r.stderr[-400:])
+    return json.loads(line[-1][2:])
+
+
 def replay(params):
     if params["op"] == "solver_hist":
         hist = [tuple(o) for o in params["history"]]
@@ -401,13 +423,17 @@ def replay(params):
                     fresh={k: fresh.get(k) for k in ("status", "w", "exc")})
     g = params["group"]
     hist = [tuple(o) for o in params["history"]]
+    # the same final operation on fresh objects (empty history) in a process of its own: state that leaks through the process
+    # (compile caches, module globals) shows as a difference, too
+    ref = fresh_process_play(g, [h for h in hist if h[0] == "set" and h[1] == hist[-1][1]] + [hist[-1]])
+    # what the exploring worker had already executed before this history (each on fresh estimator objects)
+    for o in params.get("prelude", []):
+        play(g, [tuple(o)])
     outcomes, _ = play(g, hist)
     rec = outcomes[-1]
     kinds = []
     if rec["kind"] != "set" and not rec["inputs_untouched"]:
         kinds.append("input_modified")
-    # the same final operation on fresh objects (empty history)
-    ref, _ = play(g, [h for h in hist if h[0] == "set" and h[1] == hist[-1][1]] + [hist[-1]])
     a = json.dumps(dict(status=rec["status"], attrs=rec.get("attrs")), sort_keys=True)
     b = json.dumps(dict(status=ref[-1]["status"], attrs=ref[-1].get("attrs")), sort_keys=True)
     if a != b:
